@@ -35,6 +35,8 @@ def generate(seed, stratum, tier):
   for o in objs:
     o['spied'] = rng.random() < 0.8
     o['instrumented'] = rng.random() < 0.75     # ActiveObject(instrumented=False): no spy, no trace
+    if rng.random() < 0.3:
+      o['live_spy'], o['live_trace'] = rng.choice([(True, False), (False, True), (True, True)])    # through the writer thread
     if rng.random() < 0.4:
       o['react'] = {'SA': [{'op': rng.choice(['post_fifo', 'post_lifo']), 'sig': rng.choice(['SB', 'SC']), 'id': 1, 'max': 2}]}
   cap = 500 if stratum == 'no-overflow' else rng.choice([3, 4, 6])
